@@ -252,7 +252,7 @@ def coding_lines(rng, thorough):
 # ------------------------------------------------------------------------------------------------ run
 def bfs_scripts(ctx, cfg):
     """every component combination of a (small) Gen configuration: plain BFS, each finished record is printed once"""
-    res = tlc.run_tlc(SPEC_DIR, "UriMC", cfg, ctx.outdir, workers=4, timeout=600, deadlock=False, tag="UriMC_" + cfg[:-4])
+    res = tlc.run_tlc(SPEC_DIR, "UriMC", cfg, ctx.outdir, workers=4, timeout=1800, deadlock=False, tag="UriMC_" + cfg[:-4])
     out, seen = [], set()
     for line in res.text.splitlines():
         m = re.match(r'<<"SCRIPT", "(.*)">>$', line.strip())
@@ -294,12 +294,15 @@ def run(ctx):
     # 2. component combinations: TLC-enumerated (small set exhaustively, large set by simulation) + seeded random
     rng = random.Random(ctx.seed)
     small = [from_tlc(s) for s in bfs_scripts(ctx, "Gen_small.cfg")]
-    sim, _ = tlc.gen_scripts(SPEC_DIR, "UriMC", "Gen.cfg", ctx.outdir, num=6000 if not thorough else 120000, depth=7,
-                             seed=ctx.seed, workers=4, timeout=900)
-    sim = [from_tlc(s) for s in sim]
-    qsim, _ = tlc.gen_scripts(SPEC_DIR, "UriMC", "Gen_query.cfg", ctx.outdir, num=600 if not thorough else 4000, depth=7,
-                              seed=ctx.seed, workers=4, timeout=900)
-    qsim = [from_tlc(s) for s in qsim]
+    if thorough:                                  # every combination of the full option sets / every item sequence
+        sim = [from_tlc(s) for s in bfs_scripts(ctx, "Gen.cfg")]
+        qsim = [from_tlc(s) for s in bfs_scripts(ctx, "Gen_query.cfg")]
+    else:
+        sim, _ = tlc.gen_scripts(SPEC_DIR, "UriMC", "Gen.cfg", ctx.outdir, num=4000, depth=7, seed=ctx.seed, workers=4, timeout=900)
+        sim = [from_tlc(s) for s in sim]
+        qsim, _ = tlc.gen_scripts(SPEC_DIR, "UriMC", "Gen_query.cfg", ctx.outdir, num=600, depth=7, seed=ctx.seed, workers=4,
+                                  timeout=900)
+        qsim = [from_tlc(s) for s in qsim]
     rnd = [random_comp(rng) for _ in range(4000 if not thorough else 80000)]
     ctx.extra["combinations"] = {"tlc_bfs_small": len(small), "tlc_simulated": len(sim), "tlc_query_items": len(qsim), "random": len(rnd)}
     # reproduction of the listed finding first (DESIGN 3.3: always executed): empty path, '/' in the query
